@@ -308,13 +308,17 @@ func hashString(s string) uint64 {
 func runC01(outDir string, seed int64, tier string) {
 	f := feat{nestedOr: true, topOr: true, callN: true, arith: true}
 	sel := selectionPrograms()
+	wide := widePrograms()
 	runProgProperty("C01", outDir, seed, tier, func(r *rng, i int) *progCase {
 		if i < len(sel) {
 			return &progCase{prog: sel[i], note: "selection"}
 		}
+		if i < len(sel)+len(wide) {
+			return &progCase{prog: wide[i-len(sel)], note: "wide"}
+		}
 		return &progCase{prog: genProgram(r, f)}
 	}, 1000, 8000,
-		"clause selection exhaustively over small shapes (18 head shapes x 30 argument shapes x 3 positions: closed lists of length 0-3, list patterns, string-backed lists, partial lists of every prefix length, atoms, integers, compounds, repeated variables); then random programs: 1-5 predicates of arity 0-3 with 1-4 clauses, nested terms/lists/partial lists in heads, bodies with conjunction, nested and top-level disjunction (no cut), call/N, arithmetic, between/3, member/2 and a library with direct and mutual recursion; queries of 1-3 goals; up to 12 answers compared as sequences up to variable renaming; distinct by program+query text; non-trivial = at least one answer or an error")
+		"wide goals (two-alternative disjunctions and call/N goals with 7-11 distinct free variables, one after the other); clause selection exhaustively over small shapes (18 head shapes x 30 argument shapes x 3 positions: closed lists of length 0-3, list patterns, string-backed lists, partial lists of every prefix length, atoms, integers, compounds, repeated variables); then random programs: 1-5 predicates of arity 0-3 with 1-4 clauses, nested terms/lists/partial lists in heads, bodies with conjunction, nested and top-level disjunction (no cut), call/N, arithmetic, between/3, member/2 and a library with direct and mutual recursion; queries of 1-3 goals; up to 12 answers compared as sequences up to variable renaming; distinct by program+query text; non-trivial = at least one answer or an error")
 }
 
 func runC03(outDir string, seed int64, tier string) {
